@@ -373,22 +373,35 @@ def single_defs(fn):
     return {k: v for k, v in val.items() if count.get(k) == 1 and k not in params}
 
 
+def clone(node):
+    """Deep copy of an AST subtree that does not follow the parent links (copy.deepcopy would copy the whole module)."""
+    if isinstance(node, list):
+        return [clone(x) for x in node]
+    if not isinstance(node, ast.AST):
+        return node
+    new = type(node)()
+    for fld, val in ast.iter_fields(node):
+        setattr(new, fld, clone(val))
+    for a in ('lineno', 'col_offset', 'end_lineno', 'end_col_offset'):
+        if hasattr(node, a):
+            setattr(new, a, getattr(node, a))
+    return new
+
+
 class _Inline(ast.NodeTransformer):
     def __init__(self, defs, depth=0):
         self.defs, self.depth = defs, depth
 
     def visit_Name(self, node):
         if isinstance(node.ctx, ast.Load) and node.id in self.defs and self.depth < 8:
-            import copy as _copy
-            sub = _copy.deepcopy(self.defs[node.id])
+            sub = clone(self.defs[node.id])
             return _Inline({k: v for k, v in self.defs.items() if k != node.id}, self.depth + 1).visit(sub)
         return node
 
 
 def inline(fn, expr):
     """`expr` with the single-assignment locals of `fn` replaced by their definitions (recursively)."""
-    import copy as _copy
-    return _Inline(single_defs(fn)).visit(_copy.deepcopy(expr))
+    return _Inline(single_defs(fn)).visit(clone(expr))
 
 
 def same_inlined(fn, expr, text):
